@@ -28,6 +28,7 @@ def run(chk):
                         'little-endian host']
     chk.require('grid_cases', GRID)
     chk.require('guard_page_evals', 1000)
+    chk.require('same_address_changed_content_evals', 10000)
     chk.require('jenkins_eq_LE', GRID)
     chk.min_cases = GRID
     chk.coverage(vf.build_harness('c18', 'cov', ['c18.c']), 80, ['src/builtin_hashes.c'])
